@@ -159,6 +159,31 @@ Qed.
 
 End Round.
 
+(** Binary / Octal / LowerHex / UpperHex text with '#' (0b / 0o / 0x prefix), with or without sign and
+    '+': from_str_with_radix_prefix returns the number and the radix of the prefix *)
+Definition std_kind (k : fkind) : bool := match k with KBinary | KOctal | KLowerHex | KUpperHex => true | _ => false end.
+
+Theorem from_str_prefix_roundtrip k f v t default : std_kind k = true -> f_alt f = true -> f_width f = None ->
+  fmt_spec k f v = Ok t -> from_str_prefix_spec true default t = Ok (v, kind_radix k).
+Proof.
+  intros Hk Ha Hw. unfold fmt_spec.
+  assert (Hr : 2 <= kind_radix k <= 36) by (destruct k; try discriminate; cbn; lia).
+  rewrite (radix_valid_r (kind_radix k)) by lia.
+  unfold pad_integral_spec. rewrite Hw, Ha. intros H. injection H as <-.
+  unfold from_str_prefix_spec, from_str_prefix_gen.
+  pose proof (parse_print (kind_radix k) ltac:(lia) ltac:(lia) (kind_upper k f) (Z.abs v) ltac:(lia)) as Hp.
+  set (dt := digit_text (kind_upper k f) (kind_radix k) (Z.abs v)) in *.
+  assert (Hpre : forall b, strip_radix_prefix default (kind_prefix k ++ b) = (kind_radix k, b))
+    by (intros b; destruct k; try discriminate; reflexivity).
+  assert (Hsign : forall b, strip_sign true (kind_prefix k ++ b) = (Positive, kind_prefix k ++ b))
+    by (intros b; destruct k; try discriminate; reflexivity).
+  destruct (Z.leb_spec 0 v); cbn [negb].
+  - destruct (f_plus f); cbn [app].
+    + cbn [strip_sign]. rewrite Hpre, Hp. cbn [rmap rbind]. f_equal. f_equal. unfold signed, sgnz. lia.
+    + rewrite Hsign, Hpre, Hp. cbn [rmap rbind]. f_equal. f_equal. unfold signed, sgnz. lia.
+  - cbn [app strip_sign]. rewrite Hpre, Hp. cbn [rmap rbind]. f_equal. f_equal. unfold signed, sgnz. lia.
+Qed.
+
 (** non-vacuity / concrete instances *)
 Example parse_decorated_example :
   body_spec 16 [48; 48; 95; 70; 102; 95] = Ok 255 /\ body_rel 16 [48; 48; 95; 70; 102; 95] (repeat 0 2 ++ digits_spec 16 255).
@@ -176,3 +201,8 @@ Example malformed_examples :
   from_str_radix_spec true 10 [45; 43; 49] = Err E_InvalidDigit /\ from_str_radix_spec false 10 [45; 49] = Err E_InvalidDigit /\
   from_str_radix_spec true 37 [49] = Err E_UnsupportedRadix.
 Proof. repeat split; vm_compute; reflexivity. Qed.
+
+Example prefix_roundtrip_example :
+  fmt_spec KUpperHex (mkflags true true false None None [32]) 48879 = Ok [43; 48; 120; 66; 69; 69; 70] /\
+  from_str_prefix_spec true 10 [43; 48; 120; 66; 69; 69; 70] = Ok (48879, 16).
+Proof. split; vm_compute; reflexivity. Qed.
